@@ -187,6 +187,10 @@ func one(r *ev.Run, c *ev.Case, i int, mu *sync.Mutex, seenKeys map[string]int) 
 	}
 	defer kd.Remove()
 	user := gen.PickKey(rng)
+	if rng.Intn(8) == 0 {
+		// a user registered with a security-key backed key: the certificate is for the RA's fresh software key all the same
+		user = gen.SKPool()[rng.Intn(2)]
+	}
 	str := func(max int) string {
 		if rng.Intn(10) == 0 {
 			return strings.Repeat(gen.NonEmptyStr(rng, 8), 1+rng.Intn(60))
@@ -253,6 +257,20 @@ func one(r *ev.Run, c *ev.Case, i int, mu *sync.Mutex, seenKeys map[string]int) 
 	}
 	if rng.Intn(6) == 0 {
 		ps.ReqUser = "root"
+	}
+	if rng.Intn(6) == 0 {
+		// a declared user that is the login name in another spelling (case, or letters that fold onto ASCII ones): a
+		// client claim like any other — recorded verbatim, and never the principal
+		switch rng.Intn(4) {
+		case 0:
+			ps.ReqUser = strings.ToUpper(logName)
+		case 1:
+			ps.ReqUser = strings.ToLower(logName)
+		case 2:
+			ps.ReqUser = strings.NewReplacer("k", "\u212a", "s", "\u017f", "K", "\u212a").Replace(logName)
+		default:
+			ps.ReqUser = strings.Title(logName)
+		}
 	}
 	// the legacy request format ("req=alice@", "req=@laptop") lets a client declare an
 	// empty user or host name
